@@ -124,7 +124,7 @@ def run_density(case):
             # there is platform business): its logarithm carries no information about lnprob
             labels.append("subnormal_density_not_compared")
         elif pr > 0:
-            if abs(math.log(pr) - ln) > 1e-9 * max(1.0, abs(ln)) * TOLX:
+            if not (abs(math.log(pr) - ln) <= 1e-9 * max(1.0, abs(ln)) * TOLX):
                 return Outcome(failure("lnprob_vs_log_prob", "%s: log(prob(%r))=%r but lnprob=%r" % (sp["k"], x, math.log(pr), ln), kind=sp["k"]), True, labels)
         elif ln > -700:
             return Outcome(failure("lnprob_vs_log_prob", "%s: prob(%r)=0 but lnprob=%r" % (sp["k"], x, ln), kind=sp["k"]), True, labels)
@@ -142,7 +142,7 @@ def run_density(case):
             xm, xr = 0.5 * (e0 + e1), 0.5 * (e1 - e0)
             total += xr * sum(w * p.prob(float(xm + xr * x)) for x, w in zip(xs, ws))
         cond = 0.0 if sp["k"] == "uniform" else 200 * np.spacing(abs(sp["mu"]) + 12 * sp["sd"]) / sp["sd"]
-        if abs(total - 1) > (1e-8 + cond) * TOLX:
+        if not (abs(total - 1) <= (1e-8 + cond) * TOLX):
             return Outcome(failure("normalisation", "%s density integrates to %.12g" % (sp["k"], total), kind=sp["k"]), True, labels)
     # guess inside support; scale/unscale inverse
     g = p.guess
@@ -166,14 +166,17 @@ def run_density(case):
     if sp["k"] == "uniform":
         bad = [lambda: prior.Uniform(sp["hi"], sp["lo"]), lambda: prior.Uniform(sp["lo"], sp["lo"]),
                lambda: prior.Uniform(sp["lo"], sp["hi"], guess=sp["hi"] + abs(sp["hi"] - sp["lo"])),
-               lambda: prior.Uniform(sp["lo"], sp["hi"], guess=sp["lo"] - abs(sp["hi"] - sp["lo"]))]
+               lambda: prior.Uniform(sp["lo"], sp["hi"], guess=sp["lo"] - abs(sp["hi"] - sp["lo"])),
+               lambda: prior.Uniform(float("nan"), sp["hi"]), lambda: prior.Uniform(sp["lo"], float("nan"))]
     elif sp["k"] == "gaussian":
-        bad = [lambda: prior.Gaussian(sp["mu"], 0.0), lambda: prior.Gaussian(sp["mu"], -sp["sd"])]
+        bad = [lambda: prior.Gaussian(sp["mu"], 0.0), lambda: prior.Gaussian(sp["mu"], -sp["sd"]), lambda: prior.Gaussian(sp["mu"], float("nan"))]
     elif sp["k"] == "bounded":
         bad = [lambda: prior.BoundedGaussian(sp["mu"], sp["sd"], sp["mu"] + sp["sd"], sp["mu"] + 2 * sp["sd"]),
                lambda: prior.BoundedGaussian(sp["mu"], sp["sd"], sp["mu"] - 2 * sp["sd"], sp["mu"] - sp["sd"]),
                lambda: prior.BoundedGaussian(sp["mu"], sp["sd"], sp["mu"], sp["mu"]),
-               lambda: prior.BoundedGaussian(sp["mu"], 0.0, sp["mu"] - 1, sp["mu"] + 1)]
+               lambda: prior.BoundedGaussian(sp["mu"], 0.0, sp["mu"] - 1, sp["mu"] + 1),
+               lambda: prior.BoundedGaussian(sp["mu"], sp["sd"], float("nan"), sp["mu"] + 1),
+               lambda: prior.BoundedGaussian(sp["mu"], sp["sd"], sp["mu"] - 1, float("nan"))]
     for i, f in enumerate(bad):
         try:
             f()
@@ -274,7 +277,10 @@ def expr(depth):
     # numbers are python floats or numpy scalars (what indexing an array yields)
     leaf_n = st.one_of(st.tuples(gen.rounded(0.5, 3.0, 3), st.booleans()).map(lambda t: {"t": "n", "v": t[0], "np": t[1]}),
                        # exact integers, also negative (exponents) and large
-                       st.sampled_from([-2, -1, 2, 3, 41]).map(lambda v: {"t": "n", "v": v, "np": False}))
+                       st.sampled_from([-2, -1, 2, 3, 41]).map(lambda v: {"t": "n", "v": v, "np": False}),
+                       # constants on other scales (lengths in metres, unit conversions) and next to the identities 0 and 1
+                       st.tuples(st.sampled_from([4e-7, -3e-7, 1e-9, 2.5e-4, 1 + 4e-7, 1 - 2e-7, 1 + 1e-9, 4e6, 1e9]), st.booleans()).map(
+                           lambda t: {"t": "n", "v": t[0], "np": t[1]}))
     if depth == 0:
         return leaf_p
     sub = expr(depth - 1)
@@ -286,7 +292,7 @@ def expr(depth):
 def strat_alg(tier):
     pos = st.tuples(gen.rounded(0.5, 2.0, 3), gen.rounded(0.1, 1.0, 3), st.sampled_from(["uniform", "gaussian_narrow", "bounded", "uniform_int_guess", "gaussian_int_mean"]))
     return st.fixed_dictionaries({"pool": st.lists(pos, min_size=3, max_size=3).map(lambda l: [list(t) for t in l]),
-                                  "e": expr(3), "seed": st.integers(0, 2 ** 32 - 1), "size": st.sampled_from([None, 1, 5])})
+                                  "e": expr(3), "seed": st.integers(0, 2 ** 32 - 1), "size": st.sampled_from([None, 1, 5, 5, [3], [2, 3], [2, 1, 2]])})
 
 
 def _pool_prior(t):
@@ -400,6 +406,8 @@ def run_alg(case):
             # numpy's own rule for integer arrays/scalars (reached through np.square etc. of an integer guess)
             return Outcome(None, False, labels + ["domain_error"], skipped=True)
         raise
+    if isinstance(want_g, int) and not isinstance(want_g, bool) and abs(want_g) > 2 ** 62:
+        want_g = float(want_g)        # an exact python integer beyond int64 (integer guess to an integer power)
     if isinstance(want_g, complex) or not np.isfinite(want_g):
         return Outcome(None, False, labels + ["domain_error"], skipped=True)
     try:
@@ -412,7 +420,9 @@ def run_alg(case):
     if not _close(got_g, want_g):
         return Outcome(failure("derived_guess", "derived guess %r != operation on base guesses %r" % (got_g, want_g)), True, labels)
     # samples: the same numpy seed, leaves drawn in the order the derived prior stores them
-    size = case["size"]
+    size = tuple(case["size"]) if isinstance(case["size"], list) else case["size"]
+    if isinstance(size, tuple):
+        labels.append("tuple_size_%dd" % len(size))
     order = []
     _leaf_order(d, order, prior)
     np.random.seed(case["seed"])
@@ -433,7 +443,7 @@ def run_alg(case):
         return Outcome(None, False, labels + ["domain_error_in_sample"], skipped=True)
     if np.iscomplexobj(want_s):
         return Outcome(None, False, labels + ["domain_error_in_sample"], skipped=True)
-    if np.shape(got_s) != (() if size is None else (size,)):
+    if np.shape(got_s) != (() if size is None else (size,) if not isinstance(size, tuple) else size):
         return Outcome(failure("derived_sample_shape", "sample(size=%r) of a derived prior has shape %r" % (size, np.shape(got_s))), True, labels)
     if not _close(got_s, want_s):
         return Outcome(failure("derived_samples", "derived samples %r != operation on base samples %r" % (np.asarray(got_s).tolist(), np.asarray(want_s).tolist())), True, labels)
@@ -492,7 +502,7 @@ def _leaf_order(d, out, prior):
 def _eval_stored(d, it, prior, size, fixed=None):
     """evaluate the derived prior's stored tree with our own recursion (not TransformedPrior.sample)."""
     if not isinstance(d, prior.Prior):
-        return d if size is None else np.repeat(d, size)
+        return d if size is None else np.full(size, d)
     if not isinstance(d, prior.TransformedPrior):
         return fixed(d) if fixed is not None else next(it)
     args = [_eval_stored(bp, it, prior, size, fixed) for bp in d.base_prior]
